@@ -180,6 +180,30 @@ fn main() {
         })
         .collect();
     let vanswers = ask(&vreqs);
+    // how many explored programs satisfy the premise of C01_core_correct (decided by the verified checker wfTopB)
+    let wreqs: Vec<String> = vreqs
+        .iter()
+        .map(|r| {
+            let rest = &r["(core.run ".len()..];
+            let sp = rest.find(' ').unwrap_or(0);
+            format!("(core.wf {}", &rest[sp + 1..])
+        })
+        .collect();
+    let wanswers = ask(&wreqs);
+    let mut outside_shown = 0;
+    for (j, a) in wanswers.iter().enumerate() {
+        if a.starts_with("(wf true") {
+            rep.bump("theorem-premise.wfTopB-true");
+        } else if a.starts_with("(wf false") {
+            rep.bump("theorem-premise.wfTopB-false");
+            if outside_shown < 2 {
+                outside_shown += 1;
+                rep.sample(J::s(format!("outside the premise of C01_core_correct:\n{}", cases[cidx[j]].text)));
+            }
+        } else {
+            rep.bump("theorem-premise.unreadable");
+        }
+    }
     for (j, a) in vanswers.iter().enumerate() {
         let c = &cases[cidx[j]];
         let real = reals[cidx[j]].clone();
